@@ -125,3 +125,13 @@ VERDICT_TEMPLATES = {
 }
 # enumeration template: the default value must be one of the values, keep it out of the way by omitting it
 VERDICT_TEMPLATES['enum_values']['tpl'] = _T('TYPE\n  e : (', ('alt', ['a', 'b']), ', ', ('alt', ['a', 'b', 'A', 'c']), ', ', ('alt', ['a', 'c', 'd', 'B']), ');\nEND_TYPE\n')
+
+# every place an expression or a variable can be written inside a POU body: `y` is declared or not; the undeclared use must be found wherever it is written
+_USES = ['x := y;', 'y := x;', 'x := -y;', 'x := NOT y;', 'x := (x + y) * 2;', 'x := arr[y];', 'arr[y] := 1;', 'x := twice(val := y);', 'x := twice(y);', 'inst(in1 := b, in2 := y);', 'inst(out1 => y);',
+         'IF b THEN\n    IF x > y THEN\n      x := 1;\n    END_IF;\n  END_IF;', 'CASE x OF\n    1:\n      x := y;\n  ELSE\n    x := 0;\n  END_CASE;', 'CASE x OF\n    1:\n      x := 0;\n  ELSE\n    x := y;\n  END_CASE;',
+         'FOR x := y TO 10 DO\n    x := x;\n  END_FOR;', 'FOR x := 1 TO 10 BY y DO\n    x := x;\n  END_FOR;', 'WHILE b DO\n    x := y;\n  END_WHILE;', 'REPEAT\n    x := y;\n  UNTIL b\n  END_REPEAT;',
+         'x := s.a + y;', 's.a := y;', 'x := x MOD y;', 'b := x = y;', 'b := (x > 1) AND (y < 2);', 'x := x ** y;']
+def _ref_uses(t):
+    return set() if t[0] else {'P0015'}
+VERDICT_TEMPLATES['symvar_contexts'] = dict(ref=_ref_uses, tpl=_T('TYPE\n  st : STRUCT\n    a : INT;\n  END_STRUCT;\nEND_TYPE\nFUNCTION twice : INT\nVAR_INPUT\n  val : INT;\nEND_VAR\n  twice := val * 2;\nEND_FUNCTION\n' + _CALLEE +
+    'FUNCTION_BLOCK p\nVAR\n  x : INT;\n  b : BOOL;\n  arr : ARRAY[1..3] OF INT;\n  s : st;\n  inst : callee;\n', ('opt', '  y : INT;\n'), 'END_VAR\n  ', ('alt', _USES), '\nEND_FUNCTION_BLOCK\n'))
